@@ -15,7 +15,8 @@ by TLC from LoaderUser.tla.
 Scenario (JSON, the same record TLC reads):
   id, user: [class names], own: [user classes with their own attribute-access methods],
   grepo: bool, procs: [rule names with an object processor],
-  files: [ {kind: main|import|inner|follow, objs: [{cls, parent}],   (preorder, objs[0] = Model root)
+  files: [ {kind: main|import|inner|follow, prim: bool (the model is a plain value: no objects),
+            objs: [{cls, parent}],   (preorder, objs[0] = Model root)
             refs: [{owner, tf, to, post, inner, swallow}],  (textual order; post = Postponed answers first;
                                                              inner = file loaded from a string by the provider)
             imports: [file index]} ],                       (1-based indices everywhere)
@@ -35,6 +36,7 @@ import weakref
 from .. import tlc
 
 GRAMMAR = r'''
+Start:   Model | INT;      // abstract root: a model can be a plain value
 Model:   'model' name=ID imports*=Import elems*=Elem;
 Import:  'import' importURI=STRING;
 Elem:    Pkg | Def | Use;
@@ -75,6 +77,10 @@ def render_file(sc, f):
     fault = sc["fault"]
     out = ["\n" * (PAD * f)]
     refpos, objpos = {}, {}
+    if fl.get("prim"):
+        # the model is the plain value f (the root rule is `Model | INT`)
+        broken = fault["step"] == "parse" and fault["f"] == f
+        return out[0] + (f"{f} ???" if broken else str(f)), refpos, objpos
 
     def pos():
         return sum(len(x) for x in out)
@@ -257,6 +263,8 @@ class Driver:
 
             def load_models(self, model, encoding="utf-8"):
                 drv._flush_new()      # the file is constructed: name its user objects while they have their names
+                if isinstance(model, int):
+                    return None       # a plain value imports nothing
                 return self.real.load_models(model, encoding=encoding)
 
             def __call__(self, obj, attr, ref):
@@ -363,7 +371,7 @@ class Driver:
         return value
 
     def on_modelproc(self, model):
-        f = self.name_of(model) // 10
+        f = model if isinstance(model, int) else self.name_of(model) // 10
         self.emit("ModelProc", f=f, st=self.state())
         ft = self.sc["fault"]
         if ft["step"] == "modelproc" and f == ft["f"] and self.round == 1:
